@@ -214,6 +214,10 @@ def special_modules():
     S.append(("named_number_on_extension_addition", mod_text("V18", "  Ta ::= SEQUENCE { a BOOLEAN, ..., b INTEGER { x(1) } (0..9) }")))
     S.append(("named_number_on_extension_addition_set", mod_text("V19", "  Ta ::= SET { a BOOLEAN, ..., b INTEGER { x(1), y-z(9) } (0..9), c INTEGER { neg(-3) } (-5..5) }")))
     S.append(("named_number_on_extension_additions_mixed", mod_text("V20", "  Ta ::= SEQUENCE { a INTEGER { first(0) } (0..255), ..., b INTEGER { big(70000) } (0..70000), c INTEGER { d(2) } (0..9) DEFAULT 2, e INTEGER { f(1) } (0..9) OPTIONAL }")))
+    # named numbers on OPTIONAL integer components: reach the Rust model since /repo e572296 (`pub const G_C: u8 = 3;` next to
+    # `pub g: Option<u8>`: the declared type is the inner one, fd1f3f1)
+    S.append(("named_number_on_optional", mod_text("V21", "  Ta ::= SEQUENCE { a BOOLEAN, g INTEGER { c(3) } (0..9) OPTIONAL, h INTEGER { neg(-7), big-one(70000) } OPTIONAL }")))
+    S.append(("named_number_on_optional_set", mod_text("V22", "  Ta ::= SET { g INTEGER { low(-5), high-v(5) } (-5..5) OPTIONAL, ..., k INTEGER { m(1) } (0..65535) OPTIONAL }")))
     S.append(("value_default_on_choice_alt", mod_text("V15", "  Ta ::= SEQUENCE { fa Tb DEFAULT x : 5 }\n  Tb ::= CHOICE { x INTEGER }")))
     return S
 
